@@ -346,6 +346,12 @@ func (cf *childFlow) analyse(fn *ssa.Function, paths []NodePath) map[string]path
 			}
 		}
 		entry := fn.Blocks[0]
+		// the address of a loop variable that is shared by all iterations (pre-Go-1.22 semantics, or a
+		// variable declared outside the loop) must not be what is returned: every element would alias the last one
+		if al := sharedLoopVar(pure); al != nil {
+			res[F] = pathVerdict{status: core.Violated, pos: al.Pos(), detail: "the address of variable `" + al.Comment + "`, which is written once per iteration of a loop but allocated once for the whole loop, is put into the result: all elements of " + F + " alias the last one and the others are never reached"}
+			continue
+		}
 		if !exitAvoiding(entry, J, absent, nil) {
 			res[F] = pathVerdict{status: core.Discharged, pos: jpos}
 			continue
@@ -370,6 +376,61 @@ func (cf *childFlow) analyse(fn *ssa.Function, paths []NodePath) map[string]path
 		res[F] = best
 	}
 	return res
+}
+
+// sharedLoopVar: among the pure values, an Alloc whose address is converted to an
+// interface and which is stored to inside a loop although it is allocated outside that loop.
+func sharedLoopVar(pure map[ssa.Value]bool) *ssa.Alloc {
+	for v := range pure {
+		a, ok := v.(*ssa.Alloc)
+		if !ok {
+			continue
+		}
+		addrUsed := false
+		var stores []*ssa.Store
+		for _, ref := range core.Referrers(a) {
+			switch r := ref.(type) {
+			case *ssa.MakeInterface:
+				addrUsed = true
+			case *ssa.Store:
+				if r.Addr == ssa.Value(a) {
+					stores = append(stores, r)
+				}
+			}
+		}
+		if !addrUsed {
+			continue
+		}
+		for _, st := range stores {
+			// the store is on a cycle that does not pass the allocation
+			if cycleAvoiding(st.Block(), a.Block()) {
+				return a
+			}
+		}
+	}
+	return nil
+}
+
+// cycleAvoiding: can block b reach itself again without passing block avoid?
+func cycleAvoiding(b, avoid *ssa.BasicBlock) bool {
+	if b == avoid {
+		return false
+	}
+	seen := map[*ssa.BasicBlock]bool{}
+	work := append([]*ssa.BasicBlock{}, b.Succs...)
+	for len(work) > 0 {
+		x := work[len(work)-1]
+		work = work[:len(work)-1]
+		if x == b {
+			return true
+		}
+		if x == avoid || seen[x] {
+			continue
+		}
+		seen[x] = true
+		work = append(work, x.Succs...)
+	}
+	return false
 }
 
 type pathVerdict struct {
